@@ -318,6 +318,13 @@ func init() {
 		x.ctx.assumeGlobal(st, And(Ge(r, IntLit(0)), Eq(Gt(r, IntLit(0)), UF("gs.contains", SBool, s, sub))))
 		return &Val{T: r, Typ: intT}
 	}
+	for _, nm := range []string{"strings.Replace", "strings.ReplaceAll", "strings.ToUpper", "strings.TrimSpace", "strings.Join"} {
+		nm := nm
+		prelude[nm] = func(x *Exec, st *State, callee *ssa.Function, args []*Val, pos token.Pos) *Val {
+			x.trusted["A-STR"] = true
+			return x.freshVal(st, nm, strT)
+		}
+	}
 	prelude["strings.ToLower"] = func(x *Exec, st *State, callee *ssa.Function, args []*Val, pos token.Pos) *Val {
 		x.trusted["A-STR"] = true
 		if l, ok := literalOf(args[0].T); ok {
@@ -391,7 +398,9 @@ func (x *Exec) sprintf(st *State, args []*Val, pos token.Pos) *Val {
 	strT := types.Typ[types.String]
 	format, ok := literalOf(args[0].T)
 	if !ok {
-		unsupportedf("fmt.Sprintf with a non-literal format")
+		// a computed format string: the result is some string (Sprintf itself never fails)
+		r := x.freshVal(st, "sprintf", strT)
+		return r
 	}
 	// variadic slice of `any`
 	va := args[1]
